@@ -8,8 +8,8 @@
    The syntax check compile(code, '<string>', 'exec') is the oracle `chk`; theorems hold for every oracle. *)
 From Coq Require Import String Ascii List Bool Arith ZArith.
 Import ListNotations.
-Require Import PyBase PyStr Symbols Split SplitFacts SplitChunks SplitChunksFacts Merge ParseEq ParseEqFacts ParseModel ParseModelFacts ParseModelExamples
-               ParseContribFacts ParseContribExamples.
+Require Import PyBase PyStr Lex LexCoverFacts Symbols Split SplitFacts SplitChunks SplitChunksFacts SplitBalanceFacts Merge ParseEq ParseEqFacts ParseModel ParseModelFacts ParseModelExamples
+               ParseContribFacts ParseContribExamples FormatDecideFacts.
 Open Scope string_scope.
 
 Section C13.
@@ -89,6 +89,14 @@ Section C13.
     NoDup (emit_names (concat (stmt_symbols s))) ->
     n_emitted out = length (fst (split_M s)).
   Proof. exact (every_statement_contributes chk cs s out). Qed.
+
+  (* where the model is silent: PUnmodelled (str.format fields with attribute / index / spec / conversion, whose outcome
+     depends on object addresses) can only come from a statement in which the term lexer leaves a "{" outside every
+     match — a brace that is not part of a {name} term.  Every other script is decided (POk or PErr). *)
+  Theorem C13_model_decides_unless_stray_brace cs s :
+    parse_model_M chk cs s = PUnmodelled ->
+    exists st, In st (fst (split_M s)) /\ stray_open (scan_items st) = true.
+  Proof. exact (parse_model_unmodelled chk cs s). Qed.
 End C13.
 Print Assumptions C13_every_exception_classified.
 Print Assumptions C13_own_errors_only.
@@ -99,6 +107,7 @@ Print Assumptions C13_accepted_means_every_code_compiled.
 
 Print Assumptions C13_no_statement_discarded.
 Print Assumptions C13_every_statement_contributes.
+Print Assumptions C13_model_decides_unless_stray_brace.
 
 (* one statement, taken alone: a verbatim statement or a guarded equation yields exactly one emitting symbol *)
 Theorem C13_statement_emits_one st syms :
@@ -143,6 +152,36 @@ Print Assumptions C13_statements_have_no_comment.
 Theorem C13_comment_free_line_unchanged line : has_char "#" line = false -> strip_comments line = line.
 Proof. exact (strip_comments_id line). Qed.
 Print Assumptions C13_comment_free_line_unchanged.
+
+(* the bracket counter, for EVERY input string: a statement that does not begin with a fence line has balanced round
+   brackets and no prefix of it closes more than it opened; a fenced statement is its opening fence line followed by at
+   least one line, and those lines balance (so a verbatim block with an unbalanced "(" is not closed by its closing fence) *)
+Theorem C13_unfenced_statement_balanced s y :
+  In y (fst (split_M s)) -> startswith "```" y = false -> count_parens 0 y = Some 0.
+Proof. exact (unfenced_statement_balanced s y). Qed.
+Print Assumptions C13_unfenced_statement_balanced.
+Theorem C13_statements_balanced s y :
+  In y (fst (split_M s)) ->
+  exists ch, y = join_nl ch /\ In ch (model_chunks s) /\
+    match ch with
+    | [] => False
+    | l :: b => if startswith "```" l then (b <> [] /\ count_lines 0 b = Some 0) else count_lines 0 ch = Some 0
+    end.
+Proof. exact (statements_balanced s y). Qed.
+Print Assumptions C13_statements_balanced.
+
+(* inside a statement nothing is lost either: for EVERY string the term lexer's matches are non-empty, lie inside the
+   string, do not overlap, and the unmatched characters plus the match lengths add up to the length of the string
+   (each character is copied to the template or lies inside exactly one term) *)
+Theorem C13_lexer_match_fits pw s m : match_here pw s = Some m -> 1 <= mlen m /\ mlen m <= String.length s.
+Proof. exact (match_here_fits pw s m). Qed.
+Print Assumptions C13_lexer_match_fits.
+Theorem C13_lexer_covers_input s : items_len (scan_items s) = String.length s.
+Proof. exact (scan_items_cover s). Qed.
+Print Assumptions C13_lexer_covers_input.
+Theorem C13_lexer_spans_disjoint_inside s : spans_ok 0 (String.length s) (toks s).
+Proof. exact (toks_spans_ok s). Qed.
+Print Assumptions C13_lexer_spans_disjoint_inside.
 
 (* the hypotheses of C13_no_statement_discarded hold on an ordinary script (comment, blank line, fenced block,
    bracketed continuation) *)
